@@ -47,12 +47,12 @@ def rectangle(centered=False, free_orientation=True, lo=0.2):
     c = st.none() if centered else st.one_of(st.none(), point(100))
     o = st.one_of(st.none(), angle()) if free_orientation else st.none()
     return st.fixed_dictionaries({"k": st.just("rect"), "l": dim(lo, max(12.0, 4 * lo)), "w": dim(lo, max(12.0, 4 * lo)),
-                                  "c": c, "o": o})
+                                  "c": c, "o": o, "warm": st.booleans()})
 
 
 def circle(centered=False, lo=0.1):
     c = st.none() if centered else st.one_of(st.none(), point(100))
-    return st.fixed_dictionaries({"k": st.just("circle"), "r": dim(lo, max(8.0, 4 * lo)), "c": c})
+    return st.fixed_dictionaries({"k": st.just("circle"), "r": dim(lo, max(8.0, 4 * lo)), "c": c, "warm": st.booleans()})
 
 
 def polygon(centered=False, lo=0.3):
@@ -76,6 +76,33 @@ def any_shape(centered=False, lo=0.2, oriented=True):
 
 
 def build_shape(r):
+    """Library shape of a recipe. "warm": the object has been in ordinary use before it is handed on (its vertices,
+    exported geometry and a containment answer have been asked for, so whatever it computes lazily exists)."""
+    sh = _build_shape(r)
+    if r.get("warm"):
+        getattr(sh, "vertices", None)
+        sh.shapely_object
+        sh.contains_point(np.array([0.0, 0.0]))
+    return sh
+
+
+def vertices_agree(shape, tol):
+    """None if the vertices a library rectangle exposes are those of its length / width / centre / orientation (for
+    groups: of every member), else a description."""
+    if isinstance(shape, Rectangle):
+        ring = geom.rect_vertices(shape.length, shape.width, list(map(float, shape.center)), float(shape.orientation))
+        if not same_ring(np.asarray(shape.vertices, dtype=float).tolist(), ring, tol):
+            return "rectangle vertices %r do not belong to l=%r w=%r centre=%r orientation=%r" % (
+                np.asarray(shape.vertices).tolist(), shape.length, shape.width, shape.center, shape.orientation)
+    elif isinstance(shape, ShapeGroup):
+        for m in shape.shapes:
+            d = vertices_agree(m, tol)
+            if d:
+                return d
+    return None
+
+
+def _build_shape(r):
     k = r["k"]
     if k == "rect":
         kw = {}
